@@ -257,9 +257,186 @@ theorem decDMembers_strict_ok (T : Table) (cfg : Cfg) (s : Bool) (c : String) (r
         exact decDMembers_strict_ok T cfg s c rows r d h
 end
 
+/-! ### errors stay documented unless the document carries an undocumented one -/
+
+mutual
+/-- no damaged position of the document raises an undocumented kind -/
+def noOther : DWire → Bool
+  | .bad k => k != .other
+  | .tok _ _ => true
+  | .arr ws => noOtherL ws
+  | .obj _ ms => noOtherM ms
+def noOtherL : List DWire → Bool
+  | [] => true
+  | w :: r => noOther w && noOtherL r
+def noOtherM : List (String × DWire) → Bool
+  | [] => true
+  | (_, w) :: r => noOther w && noOtherM r
+end
+
+theorem assembleD_error (s : Bool) (d : List (String × Val)) : ∀ (rows : List Row) (e : EKind),
+    assembleD s d rows = .error e → e = .key
+  | [], e, h => by simp [assembleD] at h
+  | r :: rows, e, h => by
+    simp only [assembleD] at h
+    split at h
+    · cases ha : assembleD s d rows with
+      | ok t => simp [ha, Except.map] at h
+      | error e' =>
+        simp only [ha, Except.map] at h
+        injection h with h; subst h
+        exact assembleD_error s d rows _ ha
+    · split at h
+      · injection h with h; exact h.symm
+      · cases ha : assembleD s d rows with
+        | ok t => simp [ha, Except.map] at h
+        | error e' =>
+          simp only [ha, Except.map] at h
+          injection h with h; subst h
+          exact assembleD_error s d rows _ ha
+
+theorem retypeRes_error {cfg : Cfg} {c : String} {r : Except EKind Val} {e : EKind}
+    (h : retypeRes cfg c r = .error e) : e = .type ∨ r = .error e := by
+  cases r with
+  | ok v => simp [retypeRes] at h
+  | error e' =>
+    simp only [retypeRes] at h
+    split at h
+    · injection h with h; exact Or.inl h.symm
+    · injection h with h; subst h; exact Or.inr rfl
+
+private theorem node_err (T : Table) (cfg : Cfg) (s : Bool) (c : String) (ms : List (String × DWire)) (e : EKind)
+    (ih : ∀ e', decDMembers T cfg s c (rowsOf T c) ms = .error e' → e' ≠ .other)
+    (h : retypeRes cfg c (match decDMembers T cfg s c (rowsOf T c) ms with
+       | .ok d => (assembleD s d (rowsOf T c)).map (.node c)
+       | .error e => .error e) = .error e) : e ≠ .other := by
+  rcases retypeRes_error h with rfl | h'
+  · simp
+  · cases hm : decDMembers T cfg s c (rowsOf T c) ms with
+    | error e' =>
+      simp only [hm] at h'
+      injection h' with h'; subst h'
+      exact ih _ hm
+    | ok d =>
+      simp only [hm] at h'
+      cases ha : assembleD s d (rowsOf T c) with
+      | ok t => simp [ha, Except.map] at h'
+      | error e' =>
+        simp only [ha, Except.map] at h'
+        injection h' with h'; subst h'
+        rw [assembleD_error s d _ _ ha]; simp
+
+mutual
+/-- every exception that leaves the reading of a (damaged) document is either raised by the reader itself — then it is
+    one of the documented kinds — or is the undocumented exception of a damaged position -/
+theorem decD_err (T : Table) (cfg : Cfg) (s : Bool) : ∀ (ir : Bool × List EKind) (k : Kind) (w : DWire) (e : EKind),
+    noOther w = true → decD T cfg s ir k w = .error e → e ≠ .other
+  | ir, k, .bad k', e, hn, h => by
+    simp only [decD] at h
+    injection h with h; subst h
+    simpa [noOther] using hn
+  | ir, k, .tok t f, e, _, h => by
+    cases k <;> simp [decD] at h <;> (subst h; simp)
+  | ir, k, .arr ws, e, hn, h => by
+    cases k with
+    | list k' =>
+      simp only [decD] at h
+      cases hl : decDList T cfg s ir k' ws with
+      | ok vs => simp [hl, Except.map] at h
+      | error e' =>
+        simp only [hl, Except.map] at h
+        injection h with h; subst h
+        exact decDList_err T cfg s ir k' ws _ (by simpa [noOther] using hn) hl
+    | _ => simp [decD] at h; subst h; simp
+  | ir, k, .obj t ms, e, hn, h => by
+    have hnm : noOtherM ms = true := by simpa [noOther] using hn
+    cases k with
+    | node c =>
+      simp only [decD] at h
+      exact node_err T cfg s c ms e (fun e' he' => decDMembers_err T cfg s c (rowsOf T c) ms e' hnm he') h
+    | poly cs =>
+      cases t with
+      | none => simp [decD] at h; subst h; simp
+      | some tg =>
+        simp only [decD] at h
+        cases hc : classOfTag T tg with
+        | none => simp [hc] at h; subst h; simp
+        | some c =>
+          simp only [hc] at h
+          by_cases hcs : cs.contains c = true
+          · simp only [hcs, if_true] at h
+            exact node_err T cfg s c ms e (fun e' he' => decDMembers_err T cfg s c (rowsOf T c) ms e' hnm he') h
+          · have hcs' : c ∉ cs := by simpa using hcs
+            simp [hcs'] at h; subst h; simp
+    | leaf => simp [decD] at h; subst h; simp
+    | list _ => simp [decD] at h; subst h; simp
+theorem decDList_err (T : Table) (cfg : Cfg) (s : Bool) : ∀ (ir : Bool × List EKind) (k : Kind) (ws : List DWire) (e : EKind),
+    noOtherL ws = true → decDList T cfg s ir k ws = .error e → e ≠ .other
+  | _, _, [], e, _, h => by simp [decDList] at h
+  | ir, k, w :: r, e, hn, h => by
+    simp only [noOtherL, Bool.and_eq_true] at hn
+    simp only [decDList] at h
+    cases hw : decD T cfg s (false, []) k w with
+    | ok v =>
+      simp only [hw] at h
+      cases hr : decDList T cfg s ir k r with
+      | ok t => simp [hr, Except.map] at h
+      | error e' =>
+        simp only [hr, Except.map] at h
+        injection h with h; subst h
+        exact decDList_err T cfg s ir k r _ hn.2 hr
+    | error e' =>
+      simp only [hw] at h
+      split at h
+      · exact decDList_err T cfg s ir k r e hn.2 h
+      · injection h with h; subst h
+        exact decD_err T cfg s (false, []) k w _ hn.1 hw
+theorem decDMembers_err (T : Table) (cfg : Cfg) (s : Bool) (c : String) (rows : List Row) :
+    ∀ (ms : List (String × DWire)) (e : EKind), noOtherM ms = true → decDMembers T cfg s c rows ms = .error e → e ≠ .other
+  | [], e, _, h => by simp [decDMembers] at h
+  | (name, w) :: r, e, hn, h => by
+    simp only [noOtherM, Bool.and_eq_true] at hn
+    simp only [decDMembers] at h
+    cases hf : findRow rows name with
+    | none =>
+      simp only [hf] at h
+      exact decDMembers_err T cfg s c rows r e hn.2 h
+    | some row =>
+      simp only [hf] at h
+      by_cases hrd : reads s row = true
+      · simp only [hrd, if_true] at h
+        cases hw : decD T cfg s ((recRow cfg c name).itemRecover, (recRow cfg c name).itemCaught) row.kind w with
+        | ok v =>
+          simp only [hw] at h
+          cases he : emptyAction row v with
+          | keep =>
+            simp only [he] at h
+            cases hr : decDMembers T cfg s c rows r with
+            | ok t => simp [hr, Except.map] at h
+            | error e' =>
+              simp only [hr, Except.map] at h
+              injection h with h; subst h
+              exact decDMembers_err T cfg s c rows r _ hn.2 hr
+          | drop =>
+            simp only [he] at h
+            exact decDMembers_err T cfg s c rows r e hn.2 h
+          | fail =>
+            simp only [he] at h
+            injection h with h; subst h; simp
+        | error e' =>
+          simp only [hw] at h
+          split at h
+          · exact decDMembers_err T cfg s c rows r e hn.2 h
+          · injection h with h; subst h
+            exact decD_err T cfg s _ row.kind w _ hn.1 hw
+      · simp only [hrd, Bool.false_eq_true, if_false] at h
+        exact decDMembers_err T cfg s c rows r e hn.2 h
+end
+
 /-! ### the document level: failsafe never raises; every identifiable is read on its own -/
 
-def allCaught (cfg : Cfg) : Prop := cfg.failsafe = true ∧ ∀ e : EKind, cfg.caught.contains e = true
+/-- the reader's general handler catches every documented kind -/
+def allCaught (cfg : Cfg) : Prop := cfg.failsafe = true ∧ ∀ e : EKind, e ≠ .other → cfg.caught.contains e = true
 
 def survivors (T : Table) (cfg : Cfg) : List DWire → List Val
   | [] => []
@@ -269,16 +446,18 @@ def survivors (T : Table) (cfg : Cfg) : List DWire → List Val
     | .error _ => survivors T cfg r
 
 theorem decTop_eq_survivors (T : Table) (cfg : Cfg) (h : allCaught cfg) :
-    ∀ items, decTop T cfg items = .ok (survivors T cfg items)
-  | [] => rfl
-  | w :: r => by
-    have ih := decTop_eq_survivors T cfg h r
+    ∀ items, noOtherL items = true → decTop T cfg items = .ok (survivors T cfg items)
+  | [], _ => rfl
+  | w :: r, hn => by
+    simp only [noOtherL, Bool.and_eq_true] at hn
+    have ih := decTop_eq_survivors T cfg h r hn.2
     simp only [decTop] at ih ⊢
     simp only [decDList, survivors]
     cases hw : decD T cfg false (false, []) (.poly idKindsD) w with
     | ok v => simp only [ih, Except.map]
     | error e =>
-      have hm : e ∈ cfg.caught := by simpa using h.2 e
+      have hne := decD_err T cfg false (false, []) (.poly idKindsD) w e hn.1 hw
+      have hm : e ∈ cfg.caught := by simpa using h.2 e hne
       have : catches cfg [] e = true := by simp [catches, h.1, hm]
       simp only [this, Bool.and_self, if_true, ih]
 
